@@ -540,6 +540,7 @@ type c06Gen struct {
 	faults  bool // a panic in a final handler
 	dispose bool
 	bad     bool // undefined states, WhenQuery with a context
+	reuse   bool // near-duplicate pending subscriptions (channel reuse)
 	window  int  // share (%) of ops at handler / schedule-point positions
 }
 
@@ -687,6 +688,87 @@ func c06GenCase(r *Rng, g c06Gen) *C06Input {
 		}
 		in.Ops = append(in.Ops, op)
 	}
+	if g.reuse && n >= 3 {
+		// near-duplicate PENDING subscriptions: the second call must get the first
+		// one's channel exactly when it waits for the same condition with the same
+		// context. Subscribed early (before the thresholds are reached), with
+		// thresholds the tick history reaches asymmetrically.
+		tickOf := func(x int) uint64 {
+			if x < len(dryH.FinalTime) {
+				return dryH.FinalTime[x]
+			}
+			return 0
+		}
+		early := func() int { return r.Intn(nCalls/2 + 1) }
+		for i := 0; i < r.Range(1, 3); i++ {
+			p := r.Perm(n - 1)
+			x, y := p[0], p[1]
+			if tickOf(x) < tickOf(y) {
+				x, y = y, x // x ends with the higher tick
+			}
+			hi, lo := tickOf(x), tickOf(y)
+			c1, c2 := ctx(), 0
+			at1 := early()
+			at2 := at1 + r.Intn(2)
+			if at2 > nCalls {
+				at2 = nCalls
+			}
+			var a, b C06Op
+			switch r.Intn(7) {
+			case 0: // same order: legitimate reuse
+				k := []string{"when", "whennot"}[r.Intn(2)]
+				a = C06Op{Kind: k, States: []int{x, y}, Ctx: c1}
+				b = a
+			case 1: // permuted order: the same condition for When / WhenNot
+				k := []string{"when", "whennot"}[r.Intn(2)]
+				a = C06Op{Kind: k, States: []int{x, y}, Ctx: c1}
+				b = C06Op{Kind: k, States: []int{y, x}, Ctx: c1}
+			case 2, 3: // WhenTime, permuted states, positionally identical non-uniform times:
+				// x >= hi && y >= tl is reached, y >= hi && x >= tl is not (lo < hi)
+				tl := uint64(1)
+				if lo > 1 && r.Chance(50) {
+					tl = lo
+				}
+				th := hi
+				if th <= tl {
+					th = tl + 1 + uint64(r.Intn(2))
+				}
+				a = C06Op{Kind: "whentime", States: []int{x, y}, Times: []uint64{th, tl}, Ctx: c1}
+				b = C06Op{Kind: "whentime", States: []int{y, x}, Times: []uint64{th, tl}, Ctx: c1}
+				if r.Chance(30) {
+					b.Times = []uint64{tl, th} // the same condition written the other way round
+				}
+			case 4: // WhenTime, same states, different times
+				t1, t2 := uint64(r.Intn(int(hi)+2)), uint64(r.Intn(int(lo)+2))
+				a = C06Op{Kind: "whentime", States: []int{x, y}, Times: []uint64{t1 + 1, t2 + 1}, Ctx: c1}
+				b = C06Op{Kind: "whentime", States: []int{x, y}, Times: []uint64{t1 + 1, t2 + 1 + uint64(r.Range(1, 2))}, Ctx: c1}
+				if r.Chance(30) {
+					b.Times = a.Times // legitimate reuse
+				}
+			default: // everything equal but the context (nil vs non-nil, or two contexts)
+				k := []string{"when", "whennot", "whentime"}[r.Intn(3)]
+				c1 = r.Intn(3) // 0 = nil
+				c2 = r.Range(1, 3)
+				a = C06Op{Kind: k, States: []int{x, y}, Ctx: c1}
+				if k == "whentime" {
+					a.Times = []uint64{hi + 1, lo + 1}
+				}
+				b = a
+				b.States = []int{x, y}
+				b.Ctx = c2
+				// end the second context later, so that only its binding may close
+				in.Ops = append(in.Ops, C06Op{Pos: "call", At: min(at2+1+r.Intn(2), nCalls), Kind: "cancel", Ctx: c2})
+			}
+			a.Pos, a.At = "call", at1
+			b.Pos, b.At = "call", at2
+			if r.Chance(50) {
+				in.Ops = append(in.Ops, a, b)
+			} else {
+				// the pair first, whatever was generated afterwards
+				in.Ops = append([]C06Op{a, b}, in.Ops...)
+			}
+		}
+	}
 	if g.bad {
 		for i := 0; i < r.Range(1, 2); i++ {
 			op := C06Op{Pos: "call", At: r.Intn(nCalls + 1)}
@@ -816,8 +898,9 @@ func runC06(c *Ctx) error {
 			{kind: "malformed", window: 10, bad: true},
 			{kind: "window", window: 40},
 			{kind: "setschema", window: 15, grow: true},
-			{kind: "between-calls", window: 0},
+			{kind: "reuse", window: 10, reuse: true},
 			{kind: "final-handler-fault", window: 25, faults: true},
+			{kind: "reuse", window: 0, reuse: true},
 		}
 		n := c.N(2500, 60000)
 		for i := 0; i < n; i++ {
@@ -832,7 +915,9 @@ func runC06(c *Ctx) error {
 		"scripted handlers with vetoes and nested mutations) with 1-12 subscription operations of all kinds (When, WhenNot, "+
 		"WhenTime, WhenTicks, WhenNextActive, WhenQuery with the predicate as data, WhenQueue, WhenQueueEnds, NewStateCtx), "+
 		"with and without one of three cancelable contexts, contexts cancelled at random positions (at most one between two "+
-		"processSubscriptions runs: the expiry scan ranges over a Go map); positions: between top-level calls, at the start of a "+
+		"processSubscriptions runs: the expiry scan ranges over a Go map); a reuse stream subscribes near-duplicate pending "+
+		"pairs (same / permuted state order, WhenTime with positionally identical non-uniform times on permuted states and "+
+		"thresholds the tick history reaches asymmetrically, same states with different times, equal but for the context); positions: between top-level calls, at the start of a "+
 		"handler invocation, and from a separate goroutine at the schedule points tx:applied / tx:subs; streams: malformed "+
 		"(undefined states, WhenQuery with a context), SetSchema growth, a panic in a final handler, Dispose at the end (1%); "+
 		"every returned channel / context is polled at return and after each top-level call; distinct by (input, observation); "+
